@@ -1,6 +1,6 @@
 #![allow(non_camel_case_types, non_snake_case, dead_code)]
 #[tarpc::service]
-pub trait Rej25 {
-    async fn serve(a0: i32);
+pub trait Rej13 {
+    async fn r#fn(ctx: tarpc::context::Context) -> i32;
 }
 fn main() {}
